@@ -1,7 +1,42 @@
 /-
   C12 -- reading a document with comments AND `#include` directives.
+
+  Documents (`IItem`: entry / lineC / blockC / incl q name, at the top level and inside nested dicts), their tokens
+  (`itoksItems`: a directive is ONE token whose text is the directive line `#include 'name'`), admissible layouts
+  (`GapsOKI` = `GapsOKC` + `DirGapsOK`: every directive stands alone on its line), the labelling `labelI` (ids: first
+  ALL line comments in document order, then ALL directives in document order, from the one global counter; block
+  comments 0,1,2,… locally) and the meaning `denI dir c doc` (placeholder entries `INCLUDEnnnnnn ↦ INCLUDEnnnnnn` where
+  the directives stand, the tables lineC / blockC / incl, then `_clean`).
+
+    1   `exI`, `exIText`, `exI_model`, `exI_model_off`   the definitions against `parseNative`, by kernel evaluation
+    2   `parse_dirText`, `lexInclude_dir`                stage 2 on a directive line (extends `C18.parse_include_body`)
+    3   `incMap`, `TL`, `H2`, `LM_step2`, `LM_pass2`, `LM_lineC2`, `LM_dir`
+                                                         stage 2 over the lines stage 1 leaves, character by character
+    4   `inclToks`, `stageA2`, `stage12_key`, `stages12I`    stages 1 and 2 on an admissible layout: stage 1 does not
+                                                         touch directive lines, stage 2 replaces exactly those
+    5   `include_stages_toks`                            + stage 3 (`C12stages.stageB` …), against `labelCToks`
+    6   `itoksI_ok`, `bridgeI`, `labelledI_wfI`, …       token view ↔ document view
+    7   `include_stages`                                 the three stages on a document, comments on
+    8   `C12_read_included`                              the whole reader
+    9   `exI_read`, `exI_incl`, `exI_keys`, `exI_directives`, `exI_read_off`    non-vacuity
+    10  `C12_incl_table`, `C12_incl_table_stages`        the include table lists the directives, in document order
+    11  `incl_needs_own_line`, `incl_name_no_line_comment`, `incl_indent_recorded`, `incl_clean_merges`,
+        `incl_last_without_newline`                      what is excluded and why (witnesses)
+    12  `clean_incl`, `C12_incl_table_result`, `C12_included_directives`
+                                                         `_clean` keeps the table when no two directives have the same text
+    13  `include_stages_off`, `C12_read_included_off`    comments switched off (`denIoff`)
+
+  Well-formedness (`ISrcWFItems`) = `CSrcWFItems` + `isInclName q name` for every directive:
+    no `//` in the name (stage 1 runs first: `incl_name_no_line_comment`); no line-break character; written bare: not
+    empty, no quote, no white space; written in quotes: `q` is a quote character.  (`$`, `/*`, the other quote, … are fine.)
+  Layout (`DirGapsOK`): the gap in front of a directive ends with a line-break character, or is empty at the very start
+    of the text; what follows the directive starts with a line feed.  (Indentation / trailing blanks / `\r\n` would be
+    accepted by the reader but become part of the recorded directive text: `incl_indent_recorded`; a last directive
+    without line feed is read alike but not covered: `incl_last_without_newline`.)
+  Other hypotheses: those of `C12_read_commented`.
 -/
 import DictIO.Props.C12off
+import DictIO.Props.C08nat
 import DictIO.Props.C18
 
 namespace DictIO
@@ -175,6 +210,28 @@ mutual
     | .incl _ _ :: r => plainIItems r
 end
 
+mutual
+  /-- the document with its comments dropped (the directives stay) -/
+  def dropCV : ISrc → ISrc
+    | .lit l => .lit l
+    | .dict items => .dict (dropCItems items)
+    | .list xs => .list xs
+  def dropCItems : List IItem → List IItem
+    | [] => []
+    | .entry k v :: r => .entry k (dropCV v) :: dropCItems r
+    | .lineC _ :: r => dropCItems r
+    | .blockC _ :: r => dropCItems r
+    | .incl q n :: r => .incl q n :: dropCItems r
+end
+
+/-- what a document with comments and include directives means when it is read with comments switched off: the comment
+    entries are gone, the include entries stay (stage 2 has no switch); all three tables are filled as before -/
+def denIoff (dir : Str) (c : Counter) (items : List IItem) : SD :=
+  let es := (labelIItems dir { c := { counter := c }, icounter := C02.adv Gen.counterLimit (countLineItems items) c }
+    (dropCItems items)).2
+  ({ data := denPEs es [], lineC := (labelI dir c items).1.c.lineC, blockC := (labelI dir c items).1.c.blockC,
+     incl := (labelI dir c items).1.incl } : SD).clean
+
 end DictIO
 
 namespace DictIO.C12
@@ -206,6 +263,14 @@ theorem exI_model :
         (fun r => (r.1.data, r.1.exprs, r.1.lineC, r.1.blockC, r.1.incl, r.2)) =
       some ((denI "/d".toList (some 6) exI).data, [], (denI "/d".toList (some 6) exI).lineC,
         (denI "/d".toList (some 6) exI).blockC, (denI "/d".toList (some 6) exI).incl, some 12) := by decide +kernel
+
+set_option synthInstance.maxSize 1000 in
+/-- the same with comments switched off -/
+theorem exI_model_off :
+    (parseNative false "/d".toList (some 6) exIText).toOption.map
+        (fun r => (r.1.data, r.1.exprs, r.1.lineC, r.1.blockC, r.1.incl, r.2)) =
+      some ((denIoff "/d".toList (some 6) exI).data, [], (denIoff "/d".toList (some 6) exI).lineC,
+        (denIoff "/d".toList (some 6) exI).blockC, (denIoff "/d".toList (some 6) exI).incl, some 12) := by decide +kernel
 
 /-! ## 2. stage 2 on a directive line -/
 
@@ -1734,5 +1799,614 @@ theorem incl_last_without_newline :
     (parseNative true "/d".toList none "#include 'x'".toList).toOption.map (fun r => (keys r.1.data, r.1.incl)) =
       some ([.str "INCLUDE000000".toList],
         [(0, { directive := "#include 'x'".toList, file := ['x'], path := "/d/x".toList })]) := by decide +kernel
+
+/-! ## 12. `_clean` keeps the include table when no two directives have the same text -/
+
+namespace Incl
+
+/-- the table has no value twice -/
+def TblInj {α} (t : Tbl α) : Prop := ∀ i j a, t.get? i = some a → t.get? j = some a → i = j
+
+/-- the id `_clean_data` reads off a key -/
+def fsdK : Key → Option Nat
+  | .str x => firstSixDigits x
+  | .int _ => none
+
+/-- the loop of `_clean_data` for one class of keys leaves the table alone when the candidates are distinct keys with
+    distinct ids and the table has no value twice -/
+theorem cfold_tbl {α} [BEq α] [LawfulBEq α] (t : Tbl α) (ht : TblInj t) : ∀ (cand : List Key), cand.Nodup →
+    (∀ k ∈ cand, ∀ k' ∈ cand, fsdK k = fsdK k' → fsdK k ≠ none → k = k') →
+    ∀ (d : Entries) (seen : List α),
+      (∀ a ∈ seen, ∀ k ∈ cand, ∀ i, fsdK k = some i → t.get? i ≠ some a) →
+      (cand.foldl C08.cstep (d, t, seen)).2.1 = t
+  | [], _, _, _, _, _ => rfl
+  | k :: cand, hnd, hinj, d, seen, hseen => by
+    rw [List.foldl_cons]
+    obtain ⟨hk, hnd'⟩ := List.nodup_cons.mp hnd
+    have hinj' : ∀ k1 ∈ cand, ∀ k2 ∈ cand, fsdK k1 = fsdK k2 → fsdK k1 ≠ none → k1 = k2 :=
+      fun k1 h1 k2 h2 => hinj k1 (List.mem_cons_of_mem _ h1) k2 (List.mem_cons_of_mem _ h2)
+    have hseen' : ∀ a ∈ seen, ∀ k ∈ cand, ∀ i, fsdK k = some i → t.get? i ≠ some a :=
+      fun a ha k' hk' => hseen a ha k' (List.mem_cons_of_mem _ hk')
+    cases k with
+    | int z => exact cfold_tbl t ht cand hnd' hinj' d seen hseen'
+    | str x =>
+      cases hf : firstSixDigits x with
+      | none =>
+        simp only [C08.cstep, hf]
+        exact cfold_tbl t ht cand hnd' hinj' d seen hseen'
+      | some i =>
+        cases hg : Tbl.get? i t with
+        | none =>
+          simp only [C08.cstep, hf, hg]
+          exact cfold_tbl t ht cand hnd' hinj' d seen hseen'
+        | some txt =>
+          simp only [C08.cstep, hf, hg]
+          have hns : seen.contains txt = false := by
+            cases hc : seen.contains txt with
+            | false => rfl
+            | true =>
+              have hm : txt ∈ seen := by simpa using hc
+              exact absurd hg (hseen txt hm (.str x) List.mem_cons_self i hf)
+          simp only [hns, Bool.false_eq_true, if_false]
+          refine cfold_tbl t ht cand hnd' hinj' d (seen ++ [txt]) ?_
+          intro a ha k' hk' i' hi' hget
+          rcases List.mem_append.mp ha with ha | ha
+          · exact hseen' a ha k' hk' i' hi' hget
+          · simp only [List.mem_singleton] at ha
+            subst ha
+            have hii : i' = i := ht i' i a hget hg
+            subst hii
+            have : k' = .str x := hinj k' (List.mem_cons_of_mem _ hk') (.str x) List.mem_cons_self
+              (by rw [hi']; exact hf.symm) (by rw [hi']; simp)
+            subst this
+            exact hk hk'
+
+theorem cleanStep_tbl {α} [BEq α] [LawfulBEq α] (sel : Key → Bool) (lvl : Entries) (t : Tbl α) (ht : TblInj t)
+    (hn : (keys lvl).Nodup)
+    (hinj : ∀ k ∈ keys lvl, ∀ k' ∈ keys lvl, sel k = true → sel k' = true → fsdK k = fsdK k' → fsdK k ≠ none → k = k') :
+    (C06.cleanStep sel lvl t).2 = t := by
+  rw [C08.cleanStep_eq]
+  refine cfold_tbl t ht _ (hn.filter _) ?_ lvl [] (by intro a ha; cases ha)
+  intro k hk k' hk' h1 h2
+  exact hinj k (List.mem_filter.mp hk).1 k' (List.mem_filter.mp hk').1 (List.mem_filter.mp hk).2
+    (List.mem_filter.mp hk').2 h1 h2
+
+/-- an include key is the reader's own placeholder word -/
+def SelIOK (k : Key) : Prop := C06.selI k = true → ∃ i, i < 1000000 ∧ k = .str (inclPh i)
+
+mutual
+  /-- at every dict level (not inside lists) the include keys are the reader's own placeholder words -/
+  def PhOKV : Val → Prop
+    | .dict es => PhOKEs es
+    | _ => True
+  def PhOKEs : Entries → Prop
+    | [] => True
+    | (k, v) :: es => SelIOK k ∧ PhOKV v ∧ PhOKEs es
+end
+
+theorem phOKEs_iff : ∀ {es : Entries}, PhOKEs es ↔ ∀ e ∈ es, SelIOK e.1 ∧ PhOKV e.2
+  | [] => by simp [PhOKEs]
+  | (k, v) :: es => by simp [PhOKEs, phOKEs_iff (es := es), and_assoc]
+
+theorem kwIncl_nodigit : ∀ c ∈ kwIncl, digitVal c = none := by decide
+
+theorem firstSix_inclPh {n : Nat} (h : n < 1000000) : firstSixDigits (inclPh n) = some n := by
+  rw [inclPh, C08.firstSix_skip _ _ kwIncl_nodigit, C08.firstSix_padSix h]
+
+theorem inclPh_inj {i j : Nat} (hi : i < 1000000) (hj : j < 1000000) (h : inclPh i = inclPh j) : i = j := by
+  have := congrArg firstSixDigits h
+  rw [firstSix_inclPh hi, firstSix_inclPh hj] at this
+  exact Option.some.inj this
+
+theorem keyInj_of_phOK {lvl : Entries} (h : PhOKEs lvl) :
+    ∀ k ∈ keys lvl, ∀ k' ∈ keys lvl, C06.selI k = true → C06.selI k' = true → fsdK k = fsdK k' → fsdK k ≠ none → k = k' := by
+  intro k hk k' hk' hs hs' hf _
+  obtain ⟨e, he, rfl⟩ := List.mem_map.mp hk
+  obtain ⟨e', he', rfl⟩ := List.mem_map.mp hk'
+  obtain ⟨i, hi, ei⟩ := (phOKEs_iff.mp h e he).1 hs
+  obtain ⟨j, hj, ej⟩ := (phOKEs_iff.mp h e' he').1 hs'
+  rw [ei, ej] at hf ⊢
+  simp only [fsdK, firstSix_inclPh hi, firstSix_inclPh hj, Option.some.injEq] at hf
+  rw [hf]
+
+theorem cleanLevel_incl (s : SD) (lvl : Entries) (ht : TblInj s.incl) (hn : (keys lvl).Nodup) (hp : PhOKEs lvl) :
+    (cleanLevel s lvl).1.incl = s.incl := by
+  rw [C08.cleanLevel_eq]
+  show (C06.cleanStep C06.selI (C06.cleanStep C06.selB lvl s.blockC).1 s.incl).2 = s.incl
+  have hsub : (C06.cleanStep C06.selB lvl s.blockC).1.Sublist lvl :=
+    C06.cleanStep_inv (fun d => d.Sublist lvl) (fun k d _ hd => (C07.delKey_sublist k d).trans hd) _
+      (fun _ => C06.selB_ph) lvl s.blockC (List.Sublist.refl _)
+  have hks : (keys (C06.cleanStep C06.selB lvl s.blockC).1).Sublist (keys lvl) := hsub.map _
+  refine cleanStep_tbl _ _ _ ht (hks.nodup hn) ?_
+  intro k hk k' hk'
+  exact keyInj_of_phOK hp k (hks.subset hk) k' (hks.subset hk')
+
+theorem cleanRec_incl : ∀ (fuel : Nat) (s : SD) (lvl : Entries), TblInj s.incl → NodupKeysV (.dict lvl) → PhOKEs lvl →
+    (cleanRec fuel s lvl).1.incl = s.incl
+  | 0, _, _, _, _, _ => rfl
+  | fuel + 1, s, lvl, ht, hn, hp => by
+    have hl := cleanLevel_incl s lvl ht hn.1 hp
+    have hsub := (C06.cleanLevel_spec s lvl).1
+    simp only [cleanRec]
+    suffices H : ∀ (l : Entries) (acc : SD × Entries), (∀ e ∈ l, e ∈ lvl) → acc.1.incl = s.incl →
+        (l.foldl (fun (acc : SD × Entries) e =>
+          match e.2 with
+          | .dict sub => ((cleanRec fuel acc.1 sub).1, setKey e.1 (.dict (cleanRec fuel acc.1 sub).2) acc.2)
+          | _ => acc) acc).1.incl = s.incl from
+      H (cleanLevel s lvl).2 ((cleanLevel s lvl).1, (cleanLevel s lvl).2) (fun e he => hsub.subset he) hl
+    intro l
+    induction l with
+    | nil => intro acc _ h; exact h
+    | cons e l ih =>
+      intro acc hmem hacc
+      obtain ⟨k, v⟩ := e
+      have hm : (k, v) ∈ lvl := hmem _ List.mem_cons_self
+      simp only [List.foldl_cons]
+      apply ih _ (fun e he => hmem e (List.mem_cons_of_mem _ he))
+      cases v with
+      | leaf x => exact hacc
+      | list xs => exact hacc
+      | dict sub =>
+        have h1 : NodupKeysV (.dict sub) := C07.nodupKeysEs_iff.mp hn.2 _ hm
+        have h2 : PhOKEs sub := (phOKEs_iff.mp hp _ hm).2
+        show (cleanRec fuel acc.1 sub).1.incl = s.incl
+        rw [cleanRec_incl fuel acc.1 sub (by rw [hacc]; exact ht) h1 h2, hacc]
+
+/-- `_clean` keeps the include table -/
+theorem clean_incl (s : SD) (ht : TblInj s.incl) (hn : NodupKeysV (.dict s.data)) (hp : PhOKEs s.data) :
+    s.clean.incl = s.incl := by
+  show (cleanRec (depthV (.dict s.data) + 1) s s.data).1.incl = s.incl
+  exact cleanRec_incl _ s s.data ht hn hp
+
+theorem phOK_setKey {k : Key} {v : Val} {acc : Entries} (hk : SelIOK k) (hv : PhOKV v) (ha : PhOKEs acc) :
+    PhOKEs (setKey k v acc) := by
+  rw [phOKEs_iff] at ha ⊢
+  intro e he
+  rcases C07.mem_setKey he with rfl | he
+  · exact ⟨hk, hv⟩
+  · exact ha e he
+
+theorem selIOK_typed {k : Str} {key : Key} (hk : isSrcWord k = true) (h : keyOfScalar (parseKey k) = some key) :
+    SelIOK key := by
+  intro hs
+  rcases C02.Main.typedKey_cases hk h with ⟨z, rfl⟩ | rfl
+  · cases hs
+  · have hp : isPhTok k = false := (C02.srcWord_facts hk).2.1
+    simp only [isPhTok, Bool.or_eq_false_iff] at hp
+    simp only [C06.selI, Bool.and_eq_true] at hs
+    have := C02.Main.containsPh_infix hs.2
+    have e : isIncludeTok k = isInfix kwIncl k := rfl
+    rw [e, this] at hp
+    exact absurd hp.2 (by simp)
+
+theorem selIOK_linePh (i : Nat) : SelIOK (.str (linePh i)) := by
+  intro hs
+  simp [C06.selI, C08.containsIncl_linePh] at hs
+
+theorem selIOK_blockPh (i : Nat) : SelIOK (.str (blockPh i)) := by
+  intro hs
+  simp [C06.selI, C08.containsIncl_blockPh] at hs
+
+theorem next_lt (c : Counter) : (Counter.next Gen.counterLimit c).1 < 1000000 := by
+  cases c with
+  | none => simp [Counter.next]
+  | some n =>
+    simp only [Counter.next]
+    split
+    · simp
+    · rename_i h
+      have : Gen.counterLimit = 999999 := rfl
+      simp only
+      omega
+
+mutual
+  theorem phOK_V (dir : Str) : ∀ (v : ISrc) (d : Nat) (st : ILabelSt), ISrcWFV d v = true →
+      PhOKV (denPV (labelIV dir st v).2)
+    | .lit l, _, st, _ => by simp only [labelIV, denPV, PhOKV]
+    | .dict items, d, st, h => by
+      simp only [ISrcWFV] at h
+      simp only [labelIV, denPV, PhOKV]
+      exact phOK_I dir items (d + 1) st [] h (by simp only [PhOKEs])
+    | .list xs, _, st, _ => by simp only [labelIV, denPV, PhOKV]
+  /-- in the meaning of a labelled document every include key is a placeholder word of the reader -/
+  theorem phOK_I (dir : Str) : ∀ (items : List IItem) (d : Nat) (st : ILabelSt) (acc : Entries),
+      ISrcWFItems d items = true → PhOKEs acc → PhOKEs (denPEs (labelIItems dir st items).2 acc)
+    | [], _, st, acc, _, ha => by simpa only [labelIItems, denPEs] using ha
+    | .entry k v :: r, d, st, acc, h, ha => by
+      simp only [ISrcWFItems, Bool.and_eq_true] at h
+      obtain ⟨⟨⟨hk, hkey⟩, hv⟩, hr⟩ := h
+      obtain ⟨key, hkey⟩ := Option.isSome_iff_exists.mp hkey
+      have hp : isPhTok k = false := (C02.srcWord_facts hk).2.1
+      simp only [labelIItems]
+      rw [denPEs_cons hp hkey]
+      exact phOK_I dir r d _ _ hr (phOK_setKey (selIOK_typed hk hkey) (phOK_V dir v d st hv) ha)
+    | .lineC x :: r, d, st, acc, h, ha => by
+      simp only [ISrcWFItems, Bool.and_eq_true] at h
+      simp only [labelIItems]
+      have hp : ∀ i, isPhTok (linePh i) = true := fun i => (linePh_tok i).2
+      rw [denPEs_cons_ph (hp _)]
+      exact phOK_I dir r d _ _ h.2 (phOK_setKey (selIOK_linePh _) (by simp only [PhOKV]) ha)
+    | .blockC x :: r, d, st, acc, h, ha => by
+      simp only [ISrcWFItems, Bool.and_eq_true] at h
+      simp only [labelIItems]
+      have hp : ∀ i, isPhTok (blockPh i) = true := fun i => (blockPh_tok i).2
+      rw [denPEs_cons_ph (hp _)]
+      exact phOK_I dir r d _ _ h.2 (phOK_setKey (selIOK_blockPh _) (by simp only [PhOKV]) ha)
+    | .incl q n :: r, d, st, acc, h, ha => by
+      simp only [ISrcWFItems, Bool.and_eq_true] at h
+      simp only [labelIItems]
+      rw [denPEs_cons_ph (inclPh_tok _).2]
+      exact phOK_I dir r d _ _ h.2 (phOK_setKey (fun _ => ⟨_, next_lt _, rfl⟩) (by simp only [PhOKV]) ha)
+end
+
+theorem get_mem {α} {i : Nat} {a : α} : ∀ {t : Tbl α}, t.get? i = some a → (i, a) ∈ t
+  | [], h => by simp [Tbl.get?] at h
+  | (j, b) :: t, h => by
+    simp only [Tbl.get?] at h
+    split at h
+    · rename_i e
+      cases h
+      rw [e]
+      exact List.mem_cons_self
+    · exact List.mem_cons_of_mem _ (get_mem h)
+
+theorem zip_snd_inj {α} : ∀ (ids : List Nat) (vals : List α), vals.Nodup →
+    ∀ i j a, (i, a) ∈ List.zip ids vals → (j, a) ∈ List.zip ids vals → i = j
+  | [], _, _, i, j, a, h, _ => by simp at h
+  | _ :: _, [], _, i, j, a, h, _ => by simp at h
+  | x :: ids, v :: vals, hn, i, j, a, h1, h2 => by
+    obtain ⟨hv, hn'⟩ := List.nodup_cons.mp hn
+    simp only [List.zip_cons_cons, List.mem_cons, Prod.mk.injEq] at h1 h2
+    rcases h1 with ⟨rfl, rfl⟩ | h1 <;> rcases h2 with ⟨rfl, e⟩ | h2
+    · rfl
+    · exact absurd (List.of_mem_zip h2).2 hv
+    · subst e; exact absurd (List.of_mem_zip h1).2 hv
+    · exact zip_snd_inj ids vals hn' i j a h1 h2
+
+theorem nodup_of_map {α β} (f : α → β) : ∀ (l : List α), (l.map f).Nodup → l.Nodup
+  | [], _ => List.nodup_nil
+  | a :: l, h => by
+    simp only [List.map_cons, List.nodup_cons] at h ⊢
+    exact ⟨fun hm => h.1 (List.mem_map_of_mem hm), nodup_of_map f l h.2⟩
+
+theorem tblInj_zip {α} (ids : List Nat) (vals : List α) (hv : vals.Nodup) : TblInj (List.zip ids vals) :=
+  fun i j a h1 h2 => zip_snd_inj ids vals hv i j a (get_mem h1) (get_mem h2)
+
+end Incl
+open Incl
+
+/-- **the include table of the result.**  When no two directives of the document have the same text (`_clean` merges
+    those when they stand at one level, `incl_clean_merges`), every `#include` directive of the source is in the
+    include table of what the document means — hence of what the reader returns (`C12_read_included`) — with its exact
+    directive text, its file name and its path, in document order, under consecutive ids that follow those of the
+    line comments. -/
+theorem C12_incl_table_result {d : Nat} {items : List IItem} (dir : Str) (c : Counter)
+    (hwf : ISrcWFItems d items = true) (hc : C13.ValidCounter Gen.counterLimit c)
+    (hm : (inclsItems items).length ≤ Gen.counterLimit + 1)
+    (hdist : ((inclsItems items).map fun p => dirText p.1 p.2).Nodup) :
+    (denI dir c items).incl =
+      List.zip (alloc Gen.counterLimit (inclsItems items).length (C02.adv Gen.counterLimit (countLineItems items) c))
+        ((inclsItems items).map fun p =>
+          ({ directive := dirText p.1 p.2, file := p.2,
+             path := if p.2.head? == some '/' then p.2 else dir ++ ['/'] ++ p.2 } : InclEntry)) := by
+  have htab := C12_incl_table (items := items) dir c hc hm
+  have e : denI dir c items =
+      ({ data := denPEs (labelI dir c items).2 [], lineC := (labelI dir c items).1.c.lineC,
+         blockC := (labelI dir c items).1.c.blockC, incl := (labelI dir c items).1.incl } : SD).clean := rfl
+  rw [e, clean_incl _ ?_ (denP_nodup _ [] C07.nodupV_nil) (phOK_I dir items d _ [] hwf (by simp only [PhOKEs]))]
+  · exact htab
+  · show TblInj (labelI dir c items).1.incl
+    rw [htab]
+    refine tblInj_zip _ _ (nodup_of_map (fun e : InclEntry => e.directive) _ ?_)
+    rw [List.map_map]
+    exact hdist
+
+/-- the reader and the include directives of its input, in one statement -/
+theorem C12_included_directives {items : List IItem} {gaps : List Str} {tail : Str} (dir : Str) (c : Counter)
+    (hwf : ISrcWFItems 1 items = true) (hg : GapsOKI (itoksItems items) gaps tail = true)
+    (htail : items = [] → tail.all isWs = true)
+    (hc : C13.ValidCounter Gen.counterLimit c)
+    (hn : C02.countQuotedEs (plainIItems items) ≤ Gen.counterLimit + 1)
+    (hd : C02.DocKeysAbsent (plainIItems items))
+    (hm : (inclsItems items).length ≤ Gen.counterLimit + 1)
+    (hdist : ((inclsItems items).map fun p => dirText p.1 p.2).Nodup) :
+    ∃ sd c', parseNative true dir c (spreadC (itoksItems items) gaps tail) = .ok (sd, c') ∧
+      sd.incl =
+        List.zip (alloc Gen.counterLimit (inclsItems items).length (C02.adv Gen.counterLimit (countLineItems items) c))
+          ((inclsItems items).map fun p =>
+            ({ directive := dirText p.1 p.2, file := p.2,
+               path := if p.2.head? == some '/' then p.2 else dir ++ ['/'] ++ p.2 } : InclEntry)) :=
+  ⟨_, _, C12_read_included dir c hwf hg htail hc hn hd, C12_incl_table_result dir c hwf hc hm hdist⟩
+
+/-! ## 13. comments switched off -/
+
+namespace Incl
+
+/-- **the three stages, token form, comments off**: the same state; the text is a layout of the tokens that are no
+    comments, every directive replaced by its placeholder word (stage 2 has no switch) -/
+theorem include_stages_toks_off {ts : List CTok} {gaps : List Str} {tail : Str} (dir : Str) (c : Counter)
+    (hts : ∀ t ∈ ts, AOKI t) (hg : GapsOKI ts gaps tail = true) (htail : tail.all isWs = true) :
+    commentStages false dir c (spreadC ts gaps tail) =
+      ({ counter := (inclToks dir (lineToks true { counter := c } ts).1 ts).1.counter,
+         lineC := (labelCToks { counter := c } (inclToks dir (lineToks true { counter := c } ts).1 ts).2).1.lineC,
+         incl := (inclToks dir (lineToks true { counter := c } ts).1 ts).1.incl,
+         blockC := (labelCToks { counter := c } (inclToks dir (lineToks true { counter := c } ts).1 ts).2).1.blockC },
+       spreadS (plainToks (inclToks dir (lineToks true { counter := c } ts).1 ts).2)
+         (mergeGaps [] (inclToks dir (lineToks true { counter := c } ts).1 ts).2 gaps tail).1
+         (mergeGaps [] (inclToks dir (lineToks true { counter := c } ts).1 ts).2 gaps tail).2) ∧
+    GapsOKS (plainToks (inclToks dir (lineToks true { counter := c } ts).1 ts).2)
+      (mergeGaps [] (inclToks dir (lineToks true { counter := c } ts).1 ts).2 gaps tail).1 = true ∧
+    (mergeGaps [] (inclToks dir (lineToks true { counter := c } ts).1 ts).2 gaps tail).2.all isWs = true := by
+  obtain ⟨hgc, hgd⟩ := gapsOKI_iff.mp hg
+  have h12 := stages12I false dir c ts gaps tail hts hgc hgd htail
+  obtain ⟨t1, _⟩ := stages_state false ts { counter := c } []
+  obtain ⟨t1', _⟩ := stages_state true ts { counter := c } []
+  have est : (lineToks false { counter := c } ts).1 = (lineToks true { counter := c } ts).1 := t1.trans t1'.symm
+  rw [est] at h12 t1
+  generalize hst1 : (lineToks true { counter := c } ts).1 = st1 at h12 t1 ⊢
+  have hgm : GapsOKC (inclToks dir st1 ts).2 gaps tail = true := by
+    rw [gapsOKC_kind _ ts gaps tail (inclToks_kind dir ts st1 hts)]; exact hgc
+  obtain ⟨f1, f2, f3, f4⟩ := inclToks_fields dir ts st1
+  have hlab := labelCToks_inclToks dir ts { counter := c } st1
+  generalize htm : (inclToks dir st1 ts).2 = tsm at h12 hgm hlab ⊢
+  have hB := stageB false (lineToks false { counter := c } tsm).2 gaps tail 0 []
+    (lineToks_BOK' false tsm _ (by rw [← htm]; exact inclToks_aokm dir ts st1 hts))
+    (gapsOKC_lineToks false tsm gaps tail _ hgm) htail
+  obtain ⟨_, s2⟩ := stages_state false tsm { counter := c } []
+  have s3 := stages_texts_off tsm { counter := c } 0 []
+  have e1 := off_text tsm [] gaps tail
+  have e2 := off_gaps tsm [] gaps tail rfl hgm htail
+  simp only [List.length_nil] at s2
+  simp only [List.nil_append] at e1
+  refine ⟨?_, e2⟩
+  rw [h12, hB, s2, s3, e1]
+  refine Prod.ext (lexSt_eq rfl ?_ rfl rfl ?_ ?_) rfl
+  · show (inclToks dir st1 ts).1.lineC = _
+    rw [f1, t1]
+    show (labelCToks { counter := c } ts).1.lineC = _
+    rw [← hlab]
+  · show (inclToks dir st1 ts).1.lits = _
+    rw [f3, t1]
+  · show (inclToks dir st1 ts).1.exprs = _
+    rw [f4, t1]
+
+/-- no comment token -/
+def notC : CTok → Bool
+  | .tok _ => true
+  | _ => false
+
+/-- the comment tokens removed -/
+def stripC (ts : List CTok) : List CTok := ts.filter notC
+
+theorem stripC_nil : stripC [] = [] := rfl
+theorem stripC_tok (a : STok) (r : List CTok) : stripC (.tok a :: r) = .tok a :: stripC r := rfl
+theorem stripC_lineC (x : Str) (r : List CTok) : stripC (.lineC x :: r) = stripC r := rfl
+theorem stripC_blockC (x : Str) (r : List CTok) : stripC (.blockC x :: r) = stripC r := rfl
+theorem stripC_append (a b : List CTok) : stripC (a ++ b) = stripC a ++ stripC b := List.filter_append ..
+theorem stripC_map : ∀ (l : List STok), stripC (l.map .tok) = l.map .tok
+  | [] => rfl
+  | a :: l => by rw [List.map_cons, stripC_tok, stripC_map l]
+
+mutual
+  theorem itoks_dropV : ∀ (v : ISrc), itoksV (dropCV v) = stripC (itoksV v)
+    | .lit l => by simp only [dropCV, itoksV, stripC_tok, stripC_nil]
+    | .dict items => by
+      simp only [dropCV, itoksV, itoks_dropI items, List.cons_append, stripC_tok, stripC_append, stripC_nil]
+    | .list xs => by
+      simp only [dropCV, itoksV, List.cons_append, stripC_tok, stripC_append, stripC_nil, stripC_map]
+  /-- the tokens of the comment-free document are the tokens that are no comments -/
+  theorem itoks_dropI : ∀ (items : List IItem), itoksItems (dropCItems items) = stripC (itoksItems items)
+    | [] => by simp only [dropCItems, itoksItems, stripC_nil]
+    | .entry k (.lit l) :: r => by
+      simp only [dropCItems, dropCV, itoksItems, itoks_dropI r, stripC_tok]
+    | .entry k (.dict dd) :: r => by
+      simp only [dropCItems, dropCV, itoksItems, itoks_dropI r, itoks_dropI dd, List.cons_append, List.append_assoc,
+        stripC_tok, stripC_append, stripC_nil]
+    | .entry k (.list xs) :: r => by
+      simp only [dropCItems, dropCV, itoksItems, itoks_dropI r, List.cons_append, List.append_assoc,
+        stripC_tok, stripC_append, stripC_nil, stripC_map]
+    | .lineC x :: r => by
+      simp only [dropCItems, itoksItems, itoks_dropI r, stripC_lineC]
+    | .blockC x :: r => by
+      simp only [dropCItems, itoksItems, itoks_dropI r, stripC_blockC]
+    | .incl q n :: r => by
+      simp only [dropCItems, itoksItems, itoks_dropI r, stripC_tok]
+end
+
+theorem inclToks_strip (dir : Str) : ∀ (ts : List CTok) (st : LexSt),
+    inclToks dir st (stripC ts) = ((inclToks dir st ts).1, stripC (inclToks dir st ts).2)
+  | [], _ => rfl
+  | .tok a :: r, st => by
+    rw [stripC_tok]
+    simp only [inclToks]
+    split
+    · rw [inclToks_strip dir r, stripC_tok]
+    · rw [inclToks_strip dir r, stripC_tok]
+  | .lineC x :: r, st => by
+    rw [stripC_lineC, inclToks_plain dir st rfl, inclToks_strip dir r, stripC_lineC]
+  | .blockC x :: r, st => by
+    rw [stripC_blockC, inclToks_plain dir st rfl, inclToks_strip dir r, stripC_blockC]
+
+theorem labelCToks_strip (cst : CLabelSt) : ∀ (ts : List CTok), labelCToks cst (stripC ts) = (cst, plainToks ts)
+  | [] => rfl
+  | .tok a :: r => by
+    rw [stripC_tok, labelCToks_tok, labelCToks_strip cst r, plainToks_tok]
+  | .lineC x :: r => by
+    rw [stripC_lineC, labelCToks_strip cst r, plainToks_lineC]
+  | .blockC x :: r => by
+    rw [stripC_blockC, labelCToks_strip cst r, plainToks_blockC]
+
+mutual
+  theorem dropC_wfV : ∀ (v : ISrc) (d : Nat), ISrcWFV d v = true → ISrcWFV d (dropCV v) = true
+    | .lit l, d, h => by simpa only [dropCV] using h
+    | .dict items, d, h => by
+      simp only [ISrcWFV] at h
+      simp only [dropCV, ISrcWFV]
+      exact dropC_wfI items (d + 1) h
+    | .list xs, d, h => by simpa only [dropCV] using h
+  theorem dropC_wfI : ∀ (items : List IItem) (d : Nat), ISrcWFItems d items = true → ISrcWFItems d (dropCItems items) = true
+    | [], _, _ => by simp only [dropCItems, ISrcWFItems]
+    | .entry k v :: r, d, h => by
+      simp only [ISrcWFItems, Bool.and_eq_true] at h
+      obtain ⟨⟨⟨hk, hkey⟩, hv⟩, hr⟩ := h
+      simp only [dropCItems, ISrcWFItems, Bool.and_eq_true]
+      exact ⟨⟨⟨hk, hkey⟩, dropC_wfV v d hv⟩, dropC_wfI r d hr⟩
+    | .lineC x :: r, d, h => by
+      simp only [ISrcWFItems, Bool.and_eq_true] at h
+      simp only [dropCItems]
+      exact dropC_wfI r d h.2
+    | .blockC x :: r, d, h => by
+      simp only [ISrcWFItems, Bool.and_eq_true] at h
+      simp only [dropCItems]
+      exact dropC_wfI r d h.2
+    | .incl q n :: r, d, h => by
+      simp only [ISrcWFItems, Bool.and_eq_true] at h
+      simp only [dropCItems, ISrcWFItems, Bool.and_eq_true]
+      exact ⟨h.1, dropC_wfI r d h.2⟩
+end
+
+mutual
+  theorem dropC_plainV : ∀ (v : ISrc), plainIV (dropCV v) = plainIV v
+    | .lit l => by simp only [dropCV]
+    | .dict items => by simp only [dropCV, plainIV, dropC_plainI items]
+    | .list xs => by simp only [dropCV]
+  theorem dropC_plainI : ∀ (items : List IItem), plainIItems (dropCItems items) = plainIItems items
+    | [] => by simp only [dropCItems]
+    | .entry k v :: r => by simp only [dropCItems, plainIItems, dropC_plainV v, dropC_plainI r]
+    | .lineC x :: r => by simp only [dropCItems, plainIItems, dropC_plainI r]
+    | .blockC x :: r => by simp only [dropCItems, plainIItems, dropC_plainI r]
+    | .incl q n :: r => by simp only [dropCItems, plainIItems, dropC_plainI r]
+end
+
+mutual
+  theorem dropC_inclsV : ∀ (v : ISrc), inclsV (dropCV v) = inclsV v
+    | .lit l => by simp only [dropCV]
+    | .dict items => by simp only [dropCV, inclsV, dropC_inclsI items]
+    | .list xs => by simp only [dropCV]
+  theorem dropC_inclsI : ∀ (items : List IItem), inclsItems (dropCItems items) = inclsItems items
+    | [] => by simp only [dropCItems]
+    | .entry k v :: r => by simp only [dropCItems, inclsItems, dropC_inclsV v, dropC_inclsI r]
+    | .lineC x :: r => by simp only [dropCItems, inclsItems, dropC_inclsI r]
+    | .blockC x :: r => by simp only [dropCItems, inclsItems, dropC_inclsI r]
+    | .incl q n :: r => by simp only [dropCItems, inclsItems, dropC_inclsI r]
+end
+
+end Incl
+open Incl
+
+/-- **include_stages, comments off** -/
+theorem include_stages_off {d : Nat} {items : List IItem} {gaps : List Str} {tail : Str} (dir : Str) (c : Counter)
+    (hwf : ISrcWFItems d items = true) (hg : GapsOKI (itoksItems items) gaps tail = true)
+    (htail : items = [] → tail.all isWs = true) :
+    ∃ gaps' tail', commentStages false dir c (spreadC (itoksItems items) gaps tail)
+        = ({ counter := (labelI dir c items).1.icounter,
+             lineC := (labelI dir c items).1.c.lineC,
+             incl := (labelI dir c items).1.incl,
+             blockC := (labelI dir c items).1.c.blockC },
+           spreadS (srcToksPEs (labelIItems dir
+             { c := { counter := c }, icounter := C02.adv Gen.counterLimit (countLineItems items) c }
+             (dropCItems items)).2) gaps' tail')
+      ∧ GapsOKS (srcToksPEs (labelIItems dir
+             { c := { counter := c }, icounter := C02.adv Gen.counterLimit (countLineItems items) c }
+             (dropCItems items)).2) gaps' = true ∧ tail'.all isWs = true := by
+  obtain ⟨h1, h2, h3⟩ := include_stages_toks_off dir c (itoksI_ok items d hwf) hg (tailI_ws hg htail)
+  obtain ⟨t1, _⟩ := stages_state true (itoksItems items) { counter := c } []
+  generalize (lineToks true { counter := c } (itoksItems items)).1 = st1 at h1 h2 h3 t1
+  obtain ⟨b1, _⟩ := bridgeI dir items d { counter := c } st1 hwf
+  obtain ⟨_, b2'⟩ := bridgeI dir (dropCItems items) d { counter := c } st1 (dropC_wfI items d hwf)
+  have hlab := labelCToks_inclToks dir (itoksItems items) { counter := c } st1
+  have hst : ist { counter := c } st1 =
+      { c := { counter := c }, icounter := C02.adv Gen.counterLimit (countLineItems items) c } := by
+    refine ist_eq rfl ?_ ?_
+    · show st1.counter = _
+      have e1 : st1.counter = (labelCToks { counter := c } (itoksItems items)).1.counter := by rw [t1]; rfl
+      rw [e1, ← hlab]
+      have e2 := congrArg (fun s => s.c.counter) b1
+      simp only [ist] at e2
+      rw [e2]
+      exact lcounter_labelII dir items _
+    · show st1.incl = _
+      rw [t1]
+  rw [hst] at b1 b2'
+  have e0 : labelIItems dir { c := { counter := c }, icounter := C02.adv Gen.counterLimit (countLineItems items) c } items =
+      labelI dir c items := rfl
+  rw [e0] at b1
+  -- the tokens that are no comments are the labelled tokens of the comment-free document
+  have hpl : plainToks (inclToks dir st1 (itoksItems items)).2 =
+      srcToksPEs (labelIItems dir
+        { c := { counter := c }, icounter := C02.adv Gen.counterLimit (countLineItems items) c } (dropCItems items)).2 := by
+    rw [← b2', itoks_dropI, inclToks_strip, labelCToks_strip]
+  refine ⟨(mergeGaps [] (inclToks dir st1 (itoksItems items)).2 gaps tail).1,
+    (mergeGaps [] (inclToks dir st1 (itoksItems items)).2 gaps tail).2, ?_, ?_, h3⟩
+  · rw [h1, hpl]
+    refine Prod.ext (lexSt_eq ?_ ?_ ?_ ?_ rfl rfl) rfl
+    · exact congrArg (fun s => s.icounter) b1
+    · exact congrArg (fun s => s.c.lineC) b1
+    · exact congrArg (fun s => s.incl) b1
+    · exact congrArg (fun s => s.c.blockC) b1
+  · rw [← hpl]; exact h2
+
+/-- **C12_read_included_off**: the reader with comments switched off, same hypotheses: the comment entries are gone,
+    the include entries stay, the three tables are filled as with comments on, the counter ends where it ends with
+    comments on -/
+theorem C12_read_included_off {items : List IItem} {gaps : List Str} {tail : Str} (dir : Str) (c : Counter)
+    (hwf : ISrcWFItems 1 items = true) (hg : GapsOKI (itoksItems items) gaps tail = true)
+    (htail : items = [] → tail.all isWs = true)
+    (hc : C13.ValidCounter Gen.counterLimit c)
+    (hn : C02.countQuotedEs (plainIItems items) ≤ Gen.counterLimit + 1)
+    (hd : C02.DocKeysAbsent (plainIItems items)) :
+    parseNative false dir c (spreadC (itoksItems items) gaps tail) =
+      .ok (denIoff dir c items,
+           C02.adv Gen.counterLimit (C02.countQuotedEs (plainIItems items)) (labelI dir c items).1.icounter) := by
+  obtain ⟨gaps', tail', hst, hgs, ht⟩ := include_stages_off dir c hwf hg htail
+  generalize hes : (labelIItems dir
+      { c := { counter := c }, icounter := C02.adv Gen.counterLimit (countLineItems items) c } (dropCItems items)).2 = es
+    at hst hgs
+  have hq : countQuotedEs' es = C02.countQuotedEs (plainIItems items) := by
+    rw [← hes, countQuoted_labelII, dropC_plainI]
+  have hv : C13.ValidCounter Gen.counterLimit (labelI dir c items).1.icounter :=
+    icounter_labelII dir items
+      { c := { counter := c }, icounter := C02.adv Gen.counterLimit (countLineItems items) c } (C02.adv_valid _ hc)
+  have hw : SrcPWFEs 1 es = true := by rw [← hes]; exact labelledI_wfI dir _ 1 _ (dropC_wfI items 1 hwf)
+  have hk : DocKeysAbsentP es := by
+    rw [← hes]; exact docKeys_labelI dir _ _ (by rw [dropC_plainI]; exact hd)
+  rw [parseNative_stages, hst]
+  show parseRest _ (spreadS (srcToksPEs es) gaps' tail') = _
+  rw [parseRest_labelled_clean hw hgs ht rfl rfl hv (by rw [hq]; exact hn) hk, hq, ← hes]
+  rfl
+
+/-- the example with comments off, any directory, any valid counter -/
+theorem exI_read_off (dir : Str) (c : Counter) (hc : C13.ValidCounter Gen.counterLimit c) :
+    parseNative false dir c exIText =
+      .ok (denIoff dir c exI,
+        C02.adv Gen.counterLimit (C02.countQuotedEs (plainIItems exI)) (labelI dir c exI).1.icounter) := by
+  rw [← exI_text]
+  exact C12_read_included_off dir c exI_wf exIGaps_ok (fun h => by cases h) hc (by decide +kernel) (by decide +kernel)
+
+/-- … and its include table through the corollary: three directives with distinct texts -/
+theorem exI_directives (dir : Str) (c : Counter) (hc : C13.ValidCounter Gen.counterLimit c) :
+    ∃ sd c', parseNative true dir c exIText = .ok (sd, c') ∧
+      sd.incl = List.zip (alloc Gen.counterLimit 3 (C02.adv Gen.counterLimit 2 c))
+        [{ directive := "#include 'inc/a'".toList, file := "inc/a".toList, path := dir ++ ['/'] ++ "inc/a".toList },
+         { directive := "#include \"../b\"".toList, file := "../b".toList, path := dir ++ ['/'] ++ "../b".toList },
+         { directive := "#include /abs/c".toList, file := "/abs/c".toList, path := "/abs/c".toList }] := by
+  have h := C12_included_directives dir c exI_wf exIGaps_ok (fun h => by cases h) hc (by decide +kernel)
+    (by decide +kernel) (by decide +kernel) (by decide +kernel)
+  rw [exI_text] at h
+  obtain ⟨sd, c', h1, h2⟩ := h
+  refine ⟨sd, c', h1, ?_⟩
+  rw [h2]
+  have e1 : inclsItems exI = [(some '\'', "inc/a".toList), (some '"', "../b".toList), (none, "/abs/c".toList)] := by
+    decide +kernel
+  have e2 : countLineItems exI = 2 := by decide +kernel
+  rw [e1, e2]
+  have d1 : dirText (some '\'') "inc/a".toList = "#include 'inc/a'".toList := by decide
+  have d2 : dirText (some '"') "../b".toList = "#include \"../b\"".toList := by decide
+  have d3 : dirText none "/abs/c".toList = "#include /abs/c".toList := by decide
+  have p1 : ("inc/a".toList.head? == some '/') = false := by decide
+  have p2 : ("../b".toList.head? == some '/') = false := by decide
+  have p3 : ("/abs/c".toList.head? == some '/') = true := by decide
+  simp only [List.length_cons, List.length_nil, List.map_cons, List.map_nil, d1, d2, d3, p1, p2, p3, if_true,
+    Bool.false_eq_true, if_false]
 
 end DictIO.C12
